@@ -3,6 +3,7 @@
 #include <eav.h>
 #include <eav/auto_tld.h>
 #include <eav/private.h>
+#include <eav/verif_hooks.h>
 
 
 extern int
@@ -11,7 +12,10 @@ is_tld (const char *start, const char *end)
     if (start == end)
         return inverse(EEAV_TLD_INVALID);
 
-    for (const tld_t *tld = tld_list; tld->domain != NULL ; tld++) {
+    for (const tld_t *tld = tld_list; tld->domain != NULL ; tld++)
+    EAV_VERIF_LOOP(is_tld)
+    {
+        EAV_VERIF_STEP(is_tld)
         if (strncasecmp (tld->domain, start, tld->length) == 0)
             return tld->type;
     }
